@@ -898,6 +898,91 @@ vcast_usize_f64(self.nodes_vec.len())
         self.specs.directed && self.knows(node_name) ==> r.is_ok() && self.lists_nodes_of(self.pred_set(self.nodes_map@[node_name]), r.unwrap()@),
 //@ end
 
+//@ extract fn src/graph/convert.rs set_all_edge_weights props=C15,C20 ty=Graph
+//@ rewrite
+-> Graph<T, A>
+//@ with
+-> (r: Graph<T, A>)
+//@ rewrite
+self.get_all_nodes().into_iter().cloned().collect();
+//@ with
+vclone_nodes(self.get_all_nodes());
+//@ rewrite
+let new_edges = self
+            .get_all_edges()
+            .into_iter()
+            .map(|edge| {
+//@ with
+let new_edges = vmap_collect(self.get_all_edges(), |edge: &Arc<Edge<T, A>>| -> (o: Arc<Edge<T, A>>)
+                ensures *o == spec_reweighted(**edge, weight),
+            {
+//@ rewrite
+let new_edge_mut = Arc::make_mut(&mut new_edge);
+                new_edge_mut.weight = weight;
+//@ with
+vset_arc_edge_weight(&mut new_edge, weight);
+//@ rewrite
+            })
+            .collect();
+        Graph::new_from_nodes_and_edges(new_nodes, new_edges, self.specs.clone()).unwrap()
+//@ with
+            });
+        proof {
+            assert(node_names_of(new_nodes@) =~= node_names_of(self.nodes_vec@));
+            assert(edges_of(new_edges@) =~= Seq::new(self.all_edges_seq().len(), |i: int| spec_reweighted(self.all_edges_seq()[i], weight)));
+            assert forall|rr: Result<Graph<T, A>, Error>| #[trigger] nfne_rel(node_names_of(new_nodes@), edges_of(new_edges@), self.specs, rr)
+                implies rr.is_ok() && reweight_outcome(*self, weight, rr) by {
+                assert(reweight_outcome(*self, weight, rr));
+            }
+        }
+        Graph::new_from_nodes_and_edges(new_nodes, new_edges, self.specs.clone()).unwrap()
+//@ spec
+    requires
+        key_model_ok::<T>(),
+        // rebuilding the graph from the reweighted edges does not fail
+        forall|rr: Result<Graph<T, A>, Error>| #[trigger] reweight_outcome(*self, weight, rr) ==> rr.is_ok(),
+    ensures
+        // [C15.reweight.same_nodes_same_edges_every_weight_set]
+        reweight_outcome(*self, weight, Ok(r)),
+        // [C15.reweight.result_is_well_formed_same_specs]
+        r.wf_nodes() && r.wf_estore() && r.wf_rows() && r.specs == self.specs,
+//@ end
+
+//@ extract fn src/graph/convert.rs to_single_edges props=C15,C20 ty=Graph
+//@ rewrite
+-> Result<Graph<T, A>, Error>
+//@ with
+-> (r: Result<Graph<T, A>, Error>)
+//@ rewrite
+let new_nodes = self.nodes_vec.clone();
+//@ with
+let new_nodes = vclone_node_vec(&self.nodes_vec);
+//@ rewrite
+self.edges.iter().map(collapse_edges).collect();
+//@ with
+vcollapse_all(&self.edges);
+//@ spec
+    requires
+        key_model_ok::<T>(),
+    ensures
+        // [C15.collapse.multi_edge_graphs_only]
+        !self.specs.multi_edges ==> is_err_kind(r, ErrorKind::WrongMethod),
+        // [C15.collapse.same_nodes_one_edge_per_stored_pair_single_edge_specs]
+        // the result is new_from_nodes_and_edges(the same nodes, one collapsed edge per key of the name-keyed store, the same specs
+        // with multi_edges switched off)
+        self.specs.multi_edges ==> exists|keys: Seq<(T, T)>| #[trigger] collapse_outcome(*self, keys, r),
+//@ before Graph::new_from_nodes_and_edges(
+        let ghost keys = choose|keys: Seq<(T, T)>| #[trigger] keys.no_duplicates() && (forall|k: (T, T)| self.edges@.contains_key(k) <==> #[trigger] keys.contains(k))
+            && new_edges@.len() == keys.len() && forall|i: int| 0 <= i < keys.len() ==> *#[trigger] new_edges@[i] == collapsed_edge(keys[i], self.edges@[keys[i]]@);
+        proof {
+            let sp = GraphSpecs { multi_edges: false, ..self.specs };
+            assert(node_names_of(new_nodes@) =~= node_names_of(self.nodes_vec@));
+            assert(edges_of(new_edges@) =~= Seq::new(keys.len(), |i: int| collapsed_edge(keys[i], self.edges@[keys[i]]@)));
+            assert forall|rr: Result<Graph<T, A>, Error>| #[trigger] nfne_rel(node_names_of(new_nodes@), edges_of(new_edges@), sp, rr)
+                implies collapse_outcome(*self, keys, rr) by {}
+        }
+//@ end
+
 //@ extract fn src/graph/subgraph.rs get_subgraph props=C15,C20 ty=Graph
 //@ rewrite
 -> Graph<T, A>
@@ -1060,6 +1145,27 @@ let ghost nv = nodes@;
 pub fn vclone_nodes<T: Send + Sync, A>(v: Vec<&Arc<Node<T, A>>>) -> (r: Vec<Arc<Node<T, A>>>)
     ensures r@.len() == v@.len(), forall|i: int| 0 <= i < r@.len() ==> *(#[trigger] r@[i]) == **v@[i],
 { v.into_iter().cloned().collect() }
+// R-ext (A5) for to_single_edges: `self.nodes_vec.clone()` and `self.edges.iter().map(collapse_edges).collect()` (hash map iteration):
+// ASSUMED to clone the node vector / to apply collapse_edges to every (key, list) entry of the name-keyed store exactly once
+#[verifier::external_body]
+pub fn vclone_node_vec<T: Send + Sync, A>(v: &Vec<Arc<Node<T, A>>>) -> (r: Vec<Arc<Node<T, A>>>)
+    ensures r@ == v@,
+{ v.clone() }
+// the edge collapse_edges builds for one entry: endpoints of the key, weight = float sum of the list's weights (uninterpreted fold)
+pub uninterp spec fn wsum_list<T: PartialOrd + Send, A>(list: Seq<Arc<Edge<T, A>>>) -> f64;
+pub open spec fn collapsed_edge<T: PartialOrd + Send, A>(k: (T, T), list: Seq<Arc<Edge<T, A>>>) -> Edge<T, A> {
+    Edge { u: k.0, v: k.1, attributes: None, weight: wsum_list(list) }
+}
+#[verifier::external_body]
+pub fn vcollapse_all<T: Eq + Hash + Clone + PartialOrd + Ord + Send + Sync + Display, A: Clone>(m: &HashMap<(T, T), Vec<Arc<Edge<T, A>>>>) -> (r: Vec<Arc<Edge<T, A>>>)
+    ensures exists|keys: Seq<(T, T)>| #[trigger] keys.no_duplicates() && (forall|k: (T, T)| m@.contains_key(k) <==> #[trigger] keys.contains(k))
+        && r@.len() == keys.len() && forall|i: int| 0 <= i < keys.len() ==> *#[trigger] r@[i] == collapsed_edge(keys[i], m@[keys[i]]@),
+{ unimplemented!() /* m.iter().map(collapse_edges).collect() in the repository */ }
+// R-ext (A5): `let m = Arc::make_mut(&mut a); m.weight = w;` (a returned &mut is outside Verus): ASSUMED to set the weight and nothing else
+#[verifier::external_body]
+pub fn vset_arc_edge_weight<T: Clone + PartialOrd + Send, A: Clone>(a: &mut Arc<Edge<T, A>>, w: f64)
+    ensures **final(a) == spec_reweighted(**old(a), w),
+{ Arc::make_mut(a).weight = w; }
 // R-ext (A5): `v.into_iter().map(f).collect()` targets a local declaration ASSUMED to apply f to every element in order; the closure f
 // stays in place and is verified against the postcondition written on it
 #[verifier::external_body]
@@ -1099,3 +1205,24 @@ pub proof fn lemma_add_edge_cases_cover<T: Eq + PartialOrd + Send + Sync, A: Clo
         add_edge_case(g, true, true) || add_edge_case(g, true, false) || add_edge_case(g, false, true) || add_edge_case(g, false, false),
 {
 }
+
+// R-ext (A5): `v.iter().map(|e| e.weight).sum()` (Iterator::sum over f64): uninterpreted fold
+#[verifier::external_body]
+pub fn vsum_weight_list<T: PartialOrd + Send, A>(v: &Vec<Arc<Edge<T, A>>>) -> (r: f64)
+    ensures r == wsum_list(v@),
+{ v.iter().map(|e| e.weight).sum() }
+
+//@ extract fn src/graph/convert.rs collapse_edges props=C15,C20
+//@ rewrite
+-> Arc<Edge<T, A>>
+//@ with
+-> (r: Arc<Edge<T, A>>)
+//@ rewrite
+v.iter().map(|e| e.weight).sum();
+//@ with
+vsum_weight_list(v);
+//@ spec
+    ensures
+        // [C15.collapse.one_edge_with_the_summed_weight]
+        *r == collapsed_edge(*tuple.0, tuple.1@),
+//@ end
